@@ -141,6 +141,11 @@ fn check(prop: &str, tier: Tier) -> i32 {
     let evaluations: u64 = report.spaces.iter().map(|s| s.visited).sum();
     let space_size: u64 = report.spaces.iter().map(|s| s.size).sum();
     let nontrivial: u64 = report.spaces.iter().map(|s| s.nontrivial).sum();
+    // a case that stopped at its own time budget (reported through the counter) is a cap too
+    let mut report = report;
+    if let Some(n) = report.counters.get("cases_stopped_at_time_budget").copied().filter(|n| *n > 0) {
+        report.caps_hit.push(format!("{n} case(s) stopped at their exploration time budget (see outcome classes CAPPED…)"));
+    }
     let exhaustive = evaluations == space_size && report.caps_hit.is_empty();
     let mut samples: Vec<J> = Vec::new();
     for s in &report.spaces {
